@@ -150,7 +150,7 @@ impl Prop for C19 {
         serde_json::to_value(Case { chunks }).unwrap()
     }
     fn rule(&self) -> String {
-        "texts from line fragments over {a,é,漢,♠,space,tab} joined by LF/CRLF/lone CR, random chunkings on char boundaries (empty chunks included); every char-boundary offset and every span (s<=e) of the text is queried (NewlineCache, the lexer's line_col/span_lines_str, LexParseError::pp for lexing and for parse errors (recovery off and on), and the builders' SpannedDiagnosticFormatter::file_location_msg / underline_span_with_text) and compared with a naive scan (1+count of LF; chars since line start; rfind/find of LF; numbered source rows, each followed by an underline row that starts below the first covered character of that line and is as wide as the covered part). 1/24 of the texts start with 4-11 or 94-100 short lines so that line numbers gain a digit inside the text (for texts with more than 70 boundaries only the spans between a subset of at most 44 boundaries - those of lines 9-10 and 99-100, every k-th, the end - are queried). One evaluation = one (text,chunking) with all its offsets and spans. Non-trivial: >=2 lines and (multi-byte char or CRLF) and a query touching a line boundary/end of text (always the case since all boundaries are enumerated); distinct by (text, chunking).".into()
+        "texts from line fragments over {a,é,漢,♠,space,tab} joined by LF/CRLF/lone CR, random chunkings on char boundaries (empty chunks included); every char-boundary offset and every span (s<=e) of the text is queried (NewlineCache, the lexer's line_col/span_lines_str, LexParseError::pp for lexing errors and for every parse error (recovery off and on; repairs with inserts, shifts and runs of adjacent deletes), and the builders' SpannedDiagnosticFormatter::file_location_msg / underline_span_with_text) and compared with a naive scan (1+count of LF; chars since line start; rfind/find of LF; numbered source rows, each followed by an underline row that starts below the first covered character of that line and is as wide as the covered part). 1/24 of the texts start with 4-11 or 94-100 short lines so that line numbers gain a digit inside the text (for texts with more than 70 boundaries only the spans between a subset of at most 44 boundaries - those of lines 9-10 and 99-100, every k-th, the end - are queried). One evaluation = one (text,chunking) with all its offsets and spans. Non-trivial: >=2 lines and (multi-byte char or CRLF) and a query touching a line boundary/end of text (always the case since all boundaries are enumerated); distinct by (text, chunking).".into()
     }
     fn assumptions(&self) -> Vec<String> {
         vec![
@@ -159,7 +159,7 @@ impl Prop for C19 {
         ]
     }
     fn required_classes(&self, _tier: Tier) -> Vec<&'static str> {
-        vec!["crlf", "multibyte", "multi-chunk", "empty-text", "trailing-newline", "span-ends-at-line-start", "pp-lex-error", "pp-parse-error", "lines>=10"]
+        vec!["crlf", "multibyte", "multi-chunk", "empty-text", "trailing-newline", "span-ends-at-line-start", "pp-lex-error", "pp-parse-error", "pp-repair-insert", "pp-adjacent-deletes", "lines>=10"]
     }
 
     fn evaluate(&self, case: &Value) -> Outcome {
@@ -446,11 +446,11 @@ impl Prop for C19 {
             let (grm, st, ld) = PARSER.get_or_init(|| {
                 let grm = cfgrammar::yacc::YaccGrammar::<u32>::new_with_storaget(
                     cfgrammar::yacc::YaccKind::Original(cfgrammar::yacc::YaccOriginalActionKind::GenericParseTree),
-                    "%token X\n%%\nS: 'W' S | ;\n",
+                    "%token Z\n%%\nS: 'W' 'X' S | 'Y' | ;\n",
                 )
                 .unwrap();
                 let (_, st) = lrtable::from_yacc(&grm, lrtable::Minimiser::Pager).unwrap();
-                let mut ld = LRNonStreamingLexerDef::<DefaultLexerTypes<u32>>::from_str("%%\n[ab]+ 'W'\n[^ab \\t\\r\\n]+ 'X'\n[ \\t\\r\\n]+ ;\n").unwrap();
+                let mut ld = LRNonStreamingLexerDef::<DefaultLexerTypes<u32>>::from_str("%%\n[ab]+ 'W'\n\u{e9}+ 'X'\n\u{6f22}+ 'Y'\n[^ab\u{e9}\u{6f22} \\t\\r\\n]+ 'Z'\n[ \\t\\r\\n]+ ;\n").unwrap();
                 let map: std::collections::HashMap<&str, u32> = grm.tokens_map().iter().map(|(k, v)| (*k, u32::from(*v))).collect();
                 ld.set_rule_ids(&map);
                 (grm, st, ld)
@@ -464,8 +464,19 @@ impl Prop for C19 {
                         return o;
                     }
                 };
-                if let Some(e @ LexParseError::ParseError(pe)) = errs.first() {
+                for e in errs.iter() {
+                    let LexParseError::ParseError(pe) = e else { continue };
                     let (l, c) = ref_line_col(&text, pe.lexeme().span().start());
+                    for r in pe.repairs().iter().flatten() {
+                        match r {
+                            lrpar::ParseRepair::Insert(_) => o.class("pp-repair-insert"),
+                            lrpar::ParseRepair::Delete(_) => o.class("pp-repair-delete"),
+                            lrpar::ParseRepair::Shift(_) => o.class("pp-repair-shift"),
+                        }
+                    }
+                    if pe.repairs().iter().any(|rs| rs.windows(2).any(|w| matches!((&w[0], &w[1]), (lrpar::ParseRepair::Delete(a), lrpar::ParseRepair::Delete(b)) if a.span().end() == b.span().start()))) {
+                        o.class("pp-adjacent-deletes");
+                    }
                     match catch(|| e.pp(&plexer, &|t| grm.token_epp(t))) {
                         Err(p) => {
                             o.fail("panic", format!("C19/pp-parse-error/{}", p.signature()), p.detail());
